@@ -376,27 +376,29 @@ func runC18(tier string) int {
 		dir := rx.Scratch("c18")
 		defer os.RemoveAll(dir)
 		rx.WriteFiles(dir, files)
-		bo := ledgerBuild()
-		bo.Opt, bo.Asan = 1, true
-		b := rx.Build(dir, "main.ddp", bo)
-		if !b.OK {
-			d := ""
-			for _, x := range b.Resp.Diags {
-				d += x.String() + "\n"
+		for _, lvl := range []uint{1, 2} {
+			bo := ledgerBuild()
+			bo.Opt, bo.Asan = lvl, true
+			b := rx.Build(dir, "main.ddp", bo)
+			if !b.OK {
+				d := ""
+				for _, x := range b.Resp.Diags {
+					d += x.String() + "\n"
+				}
+				return false, fmt.Sprintf("-O%d: build failed at stage %s: %s\n%s", lvl, b.Stage, firstLines(b.Log, 6), d), files
 			}
-			return false, "build failed at stage " + b.Stage + ": " + firstLines(b.Log, 6) + "\n" + d, files
-		}
-		r := rx.RunRobust(b.Exe, rx.RunOpts{NoLimit: true})
-		atomic.AddInt64(&runs, 1)
-		if r.Infra {
-			c.Broken("cannot run " + b.Exe)
-			return true, "", files
-		}
-		if r.Stdout != exp.String() || r.Exit != 0 {
-			return false, fmt.Sprintf("exit %d (%s)\nexpected:\n%s\ngot:\n%s\nstderr: %s", r.Exit, r.Class(), firstRunes(exp.String(), 600), firstRunes(r.Stdout, 600), firstRunes(r.Stderr, 400)), files
-		}
-		if v := memoryVerdict(r); v != "" {
-			return false, "memory monitor: " + v, files
+			r := rx.RunRobust(b.Exe, rx.RunOpts{NoLimit: true})
+			atomic.AddInt64(&runs, 1)
+			if r.Infra {
+				c.Broken("cannot run " + b.Exe)
+				return true, "", files
+			}
+			if r.Stdout != exp.String() || r.Exit != 0 {
+				return false, fmt.Sprintf("-O%d: exit %d (%s)\nexpected:\n%s\ngot:\n%s\nstderr: %s", lvl, r.Exit, r.Class(), firstRunes(exp.String(), 600), firstRunes(r.Stdout, 600), firstRunes(r.Stderr, 400)), files
+			}
+			if v := memoryVerdict(r); v != "" {
+				return false, fmt.Sprintf("-O%d: memory monitor: %s", lvl, v), files
+			}
 		}
 		return true, "", files
 	}
